@@ -17,6 +17,8 @@ Decides:
  U usage fallback   the `fallback_to_usage` help of the ENCLOSING level replaces a failure only when the level was given no
                     items at all (test taken before the inner parser ran): a subcommand's own failure is never turned
                     into the parent's help (shared with C10/C11).
+ G registry         the short names of a subcommand reach the cluster registry (collect_shorts descends into Item::Command), so
+                    `cmd -ab` after the command name means `cmd -a -b` (shared with C02).
  R scope restore    adjacent commands restore the pre-adjacency scope (shared with C05; found and fixed 9061519).
 Does not decide: acceptance of whole subcommand lines."""
 import re
@@ -29,7 +31,7 @@ import consumers, scopes, c05, c06, c07, c10
 LEVEL = 'other'
 EXPLANATION = __doc__
 ASSUMPTIONS = []
-FLOORS = {'N.name-first': 6, 'M.matched': 7, 'U.unmatched': 3, 'D.depth': 8, 'F.final': 10, 'L.own-level': 2, 'R.scope-restore': 4, 'U.usage-fallback': 1}
+FLOORS = {'N.name-first': 6, 'M.matched': 7, 'U.unmatched': 3, 'D.depth': 8, 'F.final': 10, 'L.own-level': 2, 'R.scope-restore': 4, 'U.usage-fallback': 1, 'G.registry': 10}
 
 def run(ctx):
     cfgs = ['none', 'all'] if ctx.tier == 'quick' else ['none', 'all', 'ac', 'doc']
@@ -41,6 +43,8 @@ def run(ctx):
         ctx.guard(keep_only, ctx, lambda: c07.table(ctx, cfg, fs), lambda o: 'depth=Less' in o.key or 'depth=Greater' in o.key, 'D.depth')
         ctx.guard(keep_only, ctx, lambda: c10.final(ctx, cfg, fs), lambda o: True, 'F.final')
         ctx.guard(keep_only, ctx, lambda: c10.returns(ctx, cfg, fs), lambda o: o.rule == 'P.payload', 'L.own-level')
+        import c12
+        ctx.guard(keep_only, ctx, lambda: c12.walker_rules(ctx, cfg, fs, 'G.registry', {'collect_shorts': c12.WALKERS['collect_shorts']}), lambda o: True, 'G.registry')
         ctx.guard(keep_only, ctx, lambda: c05.scope_restore(ctx, cfg, fs), lambda o: 'ParseCommand' in o.key, 'R.scope-restore')
         ctx.guard(keep_only, ctx, lambda: c10.usage_fallback(ctx, cfg, ctx.look(fs.one(r'^info::OptionParser::<T>::run_subparser$')), 'U.usage-fallback'), lambda o: True, 'U.usage-fallback')
 
